@@ -41,6 +41,9 @@ type c12Game struct {
 	start    *aboard // the start position the tags describe (nil when startErr)
 	startErr bool    // the tags do not describe a start position: every replay request must fail
 	note     string
+	endPos   *tak.Position // the implementation's position after the legal part (generator use only)
+	tail     int           // 0: the record is exactly the legal part
+	ended    bool
 }
 
 type c12Query struct {
@@ -461,6 +464,215 @@ func c12SpecReplay(start *aboard, ops []c12Op) string {
 	return "OK " + c12EncAboard(a)
 }
 
+
+// ---------- call histories on one *ptn.PTN object ----------
+// H cases: parse the text once, ask queries1 on the object, then extend the SAME object (AddMoves or appended ops: legal
+// continuation moves, move-number markers, comments), then ask queries2 on it.  PositionAtMove is specified as a function of
+// the record, so the answers after the extension must be those of the extended record: they are compared with the naive walk
+// over the extended op list, with a freshly parsed copy of Render(), and (L1) with the model evaluated on the extended list.
+// CASE H ; <structure> ; <hex text> ; <queries1> ; <A|O> ops=<extension> ; <queries2>
+//    | <as for G> ; X <structure after the extension> ; R2 <md5 of its rendering> ; Y2 <replay> ; Q <res> ...
+
+func c12AddMovesOps(ms []tak.Move) []c12Op { // what AddMoves is documented to append
+	var out []c12Op
+	for i, m := range ms {
+		if i%2 == 0 {
+			out = append(out, c12Op{kind: 'N', n: i/2 + 1})
+		}
+		out = append(out, c12Op{kind: 'M', m: m})
+	}
+	return out
+}
+
+func c12EmitHistory(c *ctx, sample bool) {
+	r := c.r
+	var g *c12Game
+	for try := 0; try < 30; try++ {
+		g = c12GenGame(c)
+		if !g.startErr && g.tail == 0 && g.wellFormed() && g.endPos != nil {
+			break
+		}
+		g = nil
+	}
+	if g == nil {
+		return
+	}
+	// the continuation: legal moves from the end of the record (when the game is over there, the engine still accepts moves:
+	// the replay must then stop before them)
+	var cont []tak.Move
+	cur := g.endPos
+	for k := 0; k < 1+r.Intn(6); k++ {
+		if over, _ := cur.GameOver(); over && len(cont) > 0 {
+			break
+		}
+		legal := legalMoves(cur)
+		if len(legal) == 0 {
+			break
+		}
+		m := legal[r.Intn(len(legal))]
+		q, err := cur.Move(m)
+		if err != nil {
+			break
+		}
+		cont = append(cont, m)
+		cur = q
+	}
+	if len(cont) == 0 {
+		return
+	}
+	mode := "A"
+	var ext []c12Op
+	if r.Intn(2) == 0 {
+		ext = c12AddMovesOps(cont)
+	} else {
+		mode = "O"
+		ply := g.endPos.MoveNumber()
+		for i, m := range cont {
+			switch r.Intn(3) {
+			case 0:
+				ext = append(ext, c12Op{kind: 'N', n: (ply+i)/2 + 1})
+			case 1:
+				if (ply+i)%2 == 0 || i == 0 {
+					ext = append(ext, c12Op{kind: 'N', n: (ply+i)/2 + 1})
+				}
+			}
+			if r.Intn(6) == 0 {
+				ext = append(ext, c12Op{kind: 'C', s: "later"})
+			}
+			ext = append(ext, c12Op{kind: 'M', m: m})
+		}
+		if r.Intn(3) == 0 {
+			ext = append(ext, c12Op{kind: 'N', n: (ply+len(cont))/2 + 1})
+		}
+	}
+	text := []byte(g.toPTN().Render())
+	if g.bom {
+		text = append([]byte("\xef\xbb\xbf"), text...)
+	}
+	allOps := append(append([]c12Op(nil), g.ops...), ext...)
+	// queries1 exhaust the record (final position, beyond the game, the last marker); queries2 look into the extension
+	q1 := c12Queries(r, g.ops, 4)
+	q1 = append([]c12Query{{0, tak.White}}, q1...)
+	if r.Intn(4) == 0 {
+		q1 = q1[1:] // sometimes without the explicit move-0 request
+	}
+	q2 := c12Queries(r, ext, 6)
+	q2 = append([]c12Query{{0, tak.White}, {0, tak.Black}}, q2...)
+	q2 = append(q2, c12Queries(r, allOps, 4)...)
+	c12RunHistory(c, g, mode, ext, text, q1, q2, sample)
+}
+
+func c12RunHistory(c *ctx, g *c12Game, mode string, ext []c12Op, text []byte, q1, q2 []c12Query, sample bool) {
+	allOps := append(append([]c12Op(nil), g.ops...), ext...)
+	var cont []tak.Move
+	for _, o := range ext {
+		if o.kind == 'M' {
+			cont = append(cont, o.m)
+		}
+	}
+	var o1, o2, o3 c12Obs
+	var p *ptn.PTN
+	if pk, _ := safely(func() { p, _ = ptn.ParsePTN(bytes.NewReader(text)) }); pk || p == nil {
+		return
+	}
+	o1 = c12Run(text, nil) // structure / rendering / replay of the record as parsed (a separate object)
+	ask := func(p *ptn.PTN, qs []c12Query, o *c12Obs) {
+		for _, q := range qs {
+			res, m := c12PosRes(func() (*tak.Position, error) { return p.PositionAtMove(q.n, q.c) })
+			if m != "" {
+				o.panicMsg = "PositionAtMove: " + m
+			}
+			o.q = append(o.q, res)
+		}
+	}
+	ask(p, q1, &o1)
+	// the extension, on the same object
+	safely(func() {
+		if mode == "A" {
+			p.AddMoves(cont)
+		} else {
+			p.Ops = append(p.Ops, (&c12Game{ops: ext}).toPTN().Ops...)
+		}
+	})
+	o2.parse, o2.parsed = "OK", p
+	o2.pstruct = c12EncStruct(p.Tags, c12OpsOf(p))
+	rendered := ""
+	if pk, m := safely(func() { rendered = p.Render(); s := md5.Sum([]byte(rendered)); o2.rerender = hex.EncodeToString(s[:]) }); pk {
+		o2.rerender, o2.panicMsg = "PANIC", "Render: "+m
+	}
+	ask(p, q2, &o2)
+	var m string
+	if o2.replay, m = c12Replay(p); m != "" {
+		o2.panicMsg = "Iterator: " + m
+	}
+	o2.init = "-"
+	// a freshly parsed copy of the rendering of the extended object
+	var fresh *ptn.PTN
+	safely(func() { fresh, _ = ptn.ParsePTN(strings.NewReader(rendered)) })
+	if fresh != nil {
+		ask(fresh, q2, &o3)
+	}
+
+	input := fmt.Sprintf("H ; %s ; %s ; %s ; %s %s ; %s", c12EncStruct(g.tags, g.ops), hex.EncodeToString(text), c12QueryStr(q1),
+		mode, strings.Fields(c12EncStruct(nil, ext))[1], c12QueryStr(q2))
+	parts := []string{o1.l1("1"), "X " + o2.pstruct, "R2 " + o2.rerender, "Y2 " + o2.replay}
+	for _, q := range o2.q {
+		parts = append(parts, "Q "+q)
+	}
+	c.stat("cases", 1)
+	c.stat("cases_history", 1)
+	c.stat("cases_history_mode"+mode, 1)
+	c.stat("queries", int64(len(q1)+len(q2)))
+	c.printf("CASE %s | %s\n", input, strings.Join(parts, " ; "))
+	if sample {
+		c.printf("SAMPLE history: %q, asked %s, then %s %s, asked %s\n", string(text), c12QueryStr(q1), mode, c12EncStruct(nil, ext), c12QueryStr(q2))
+	}
+	fail := func(class, did, want string) {
+		c.printf("ORACLE-FAIL %s | %s | %s | %s\n", class, input, did, want)
+		c.stat("oracle_fail", 1)
+	}
+	if o1.anyPanic() || o2.anyPanic() || o3.anyPanic() {
+		fail("ptn-panic", "panic: "+o1.panicMsg+o2.panicMsg+o3.panicMsg, "a value or an error")
+		return
+	}
+	c12Oracle(c, g, input, &o1, q1) // the first round, as for any game
+	if !c12SameStruct(g.tags, allOps, p.Tags, c12OpsOf(p)) {
+		fail("history-dependent-answer", "after the extension the object holds "+o2.pstruct, "the record extended by "+c12EncStruct(nil, ext))
+		return
+	}
+	for i, q := range q2 {
+		if q.n < 0 {
+			continue
+		}
+		want := "ERR"
+		if !(q.c == tak.NoColor && q.n != 0) {
+			if a, ok := specPositionAt(g.start, allOps, q.n, q.c); ok {
+				want = "OK " + c12EncAboard(a)
+			}
+		}
+		qd := fmt.Sprintf("after %s and the extension, PositionAtMove(%d,%s)", c12QueryStr(q1), q.n, colorStr(q.c))
+		if o2.q[i] != want {
+			fail("history-dependent-answer", qd+" = "+o2.q[i], want+" (the position of the extended record)")
+			return
+		}
+		if fresh != nil && o3.q[i] != o2.q[i] {
+			fail("history-dependent-answer", qd+" = "+o2.q[i], "the answer of a freshly parsed copy of Render(): "+o3.q[i])
+			return
+		}
+	}
+	if want := c12SpecReplay(g.start, allOps); true {
+		got := o2.replay
+		if strings.HasPrefix(got, "OK ") {
+			got = "OK " + strings.SplitN(got, " ", 3)[2]
+		} else if strings.HasPrefix(got, "ERR replay") {
+			got = "ERR"
+		}
+		if got != want {
+			fail("history-dependent-answer", "full replay after the extension = "+o2.replay, want)
+		}
+	}
+}
+
 // ---------- generators ----------
 
 var c12CommentAlphabet = []string{"a", "b", " ", " ", "\n", "\t", "{", "[", "]", "\"", "1.", "a1", "R-0", "\x85", "\xa0", "\xc3\xa9", "?", "!", ".", "-", "\xef\xbb\xbf", "'"}
@@ -693,6 +905,7 @@ func c12GenGame(c *ctx) *c12Game {
 		c.stat("games_len_25plus", 1)
 	}
 
+	g.endPos, g.tail, g.ended = cur, tail, ended
 	c12BuildOps(c, g, moves, p.MoveNumber(), ended && tail == 0, a)
 	return g
 }
@@ -1082,6 +1295,9 @@ func runC12(c *ctx) {
 		if i%3 == 0 {
 			c12Mutations(c, g)
 		}
+		if i%3 == 2 { // call histories on one object: queries, extension, queries
+			c12EmitHistory(c, i < 9)
+		}
 		if i%3 == 1 { // directed: TPS start with a low move counter, game over within the file, moves after the end
 			c12EmitGame(c, c12GenEndgame(c, 3+(i/3)%6), i < 6)
 		}
@@ -1172,6 +1388,18 @@ func c12ReplayFile(c *ctx, path string) {
 	}
 	text, _ := hex.DecodeString(strings.TrimSpace(f[2]))
 	qs := c12ParseQueries(f[3])
+	if strings.TrimSpace(f[0]) == "H" && len(f) >= 6 {
+		g, ok := c12DecodeStruct(strings.TrimSpace(f[1]))
+		e := strings.Fields(f[4])
+		if ok && len(e) == 2 && !g.startErr {
+			if x, ok2 := c12DecodeStruct("tags= " + e[1]); ok2 {
+				c12RunHistory(c, g, e[0], x.ops, text, qs, c12ParseQueries(f[5]), true)
+				return
+			}
+		}
+		fmt.Fprintln(c.w, "bad history replay input")
+		return
+	}
 	o := c12Run(text, qs)
 	c.printf("SAMPLE text %q\n", string(text))
 	for i, q := range qs {
